@@ -1,7 +1,8 @@
 (* C11 - Resource paths, shadowing and back-links stay consistent.
    Statement file: theorems only, each closed by [exact]. *)
 From Coq Require Import ZArith List Bool.
-From Desper Require Import Lib.Alist Tree.C11Model Tree.C11Lemmas Tree.C11Inv Tree.C11Proofs.
+From Desper Require Import Lib.Alist Tree.C11Model Tree.C11Lemmas Tree.C11Inv Tree.C11Proofs
+     Tree.C11Keys Tree.C11KeysProofs.
 Import ListNotations.
 Open Scope Z_scope.
 
@@ -131,4 +132,35 @@ Proof. vm_compute. auto. Qed.
 Example C11_partial_clear_rejected :
   let c := [((OSet 0 [] 0 (RH 0)), OBS [(0, MR None None [] [[(0,0)]])] [(0, HR (Some 0) (Some 0))] []); ((OPush 0), OBS [(0, MR None None [] [[]; [(0,0)]])] [(0, HR (Some 0) (Some 0))] []); ((OSet 0 [] 0 (RH 1)), OBS [(0, MR None None [] [[(0,1)]; [(0,0)]])] [(0, HR (Some 0) (Some 0)); (1, HR (Some 0) (Some 0))] []); ((OClear 0), OBS [(0, MR None None [] [[]; [(0,0)]])] [(0, HR (Some 0) (Some 0)); (1, HR None None)] [(Q 0 QGet [] 0, (RHandleR 0))])] in
   wf_b c = true /\ accepts c = false /\ holds_b c = false.
+Proof. vm_compute. auto. Qed.
+
+(* ---- keys as written: str.split(self.split_char) -------------------------------- *)
+(* A key is the list of its characters (names and separators); an operation
+   on map m splits it on m's separator - the split_char of that map (class
+   attribute of a subclass, or instance attribute; '/' for the maps created
+   implicitly), empty parts being the empty name.  The theorem for the
+   operations the keys denote: *)
+Theorem C11_tree_consistent_keys :
+  forall c : C11_rcase, rwf_b c = true -> rknown_b c = false -> raccepts c = true -> rholds c.
+Proof. intros c Hwf _ Hacc. exact (raccepts_rholds c Hwf Hacc). Qed.
+Print Assumptions C11_tree_consistent_keys.
+
+(* joining names with a separator and splitting again gives the names *)
+Theorem C11_split_join :
+  forall sep ns, ns <> [] -> Forall (fun n => n <> sep) ns ->
+                 split sep (join sep ns) = map (fun n => [n]) ns.
+Proof. exact split_join. Qed.
+Print Assumptions C11_split_join.
+
+(* a subclass with split_char '.', an instance with ':' and an empty part *)
+Definition ex_sep : C11_rcase := RCASE [(0,(-2)); (1,(-3))] [((ROSet 0 [0; (-2); 1] (RH 0)), ROBS [(0, MR None None [(0,(-1))] [[]]); (1, MR None None [] [[]]); ((-1), MR (Some 0) (Some 0) [] [[(1,0)]])] [(0, HR (Some (-1)) (Some 1))] [(RQ 0 QItem [0; (-2); 1], (RValR 0)); (RQ 0 QGet [0; (-2); 1], (RHandleR 0)); (RQ (-1) QItem [1], (RValR 0))]); ((ROSet 1 [2; (-3); (-3); 3] (RH 1)), ROBS [(0, MR None None [(0,(-1))] [[]]); (1, MR None None [(2,(-2))] [[]]); ((-1), MR (Some 0) (Some 0) [] [[(1,0)]]); ((-2), MR (Some 1) (Some 2) [(4,(-3))] [[]]); ((-3), MR (Some (-2)) (Some 4) [] [[(3,1)]])] [(0, HR (Some (-1)) (Some 1)); (1, HR (Some (-3)) (Some 3))] [(RQ 1 QItem [2; (-3); (-3); 3], (RValR 1)); (RQ 1 QGetCall [2; (-3); (-3); 3], (RValR 1))])].
+Example C11_separators_nonvacuous :
+  rwf_b ex_sep = true /\ raccepts ex_sep = true /\ rholds_b ex_sep = true.
+Proof. vm_compute. auto. Qed.
+
+(* observed with __getitem__ splitting on ResourceMap.split_char: [] raises
+   KeyError where get finds the resource *)
+Example C11_class_separator_rejected :
+  let c := RCASE [(0,(-2)); (1,(-3))] [((ROSet 0 [0; (-2); 1] (RH 0)), ROBS [(0, MR None None [(0,(-1))] [[]]); (1, MR None None [] [[]]); ((-1), MR (Some 0) (Some 0) [] [[(1,0)]])] [(0, HR (Some (-1)) (Some 1))] [(RQ 0 QItem [0; (-2); 1], RKeyError); (RQ 0 QGet [0; (-2); 1], (RHandleR 0)); (RQ (-1) QItem [1], (RValR 0))]); ((ROSet 1 [2; (-3); (-3); 3] (RH 1)), ROBS [(0, MR None None [(0,(-1))] [[]]); (1, MR None None [(2,(-2))] [[]]); ((-1), MR (Some 0) (Some 0) [] [[(1,0)]]); ((-2), MR (Some 1) (Some 2) [(4,(-3))] [[]]); ((-3), MR (Some (-2)) (Some 4) [] [[(3,1)]])] [(0, HR (Some (-1)) (Some 1)); (1, HR (Some (-3)) (Some 3))] [(RQ 1 QItem [2; (-3); (-3); 3], RKeyError); (RQ 1 QGetCall [2; (-3); (-3); 3], (RValR 1))])] in
+  rwf_b c = true /\ raccepts c = false /\ rholds_b c = false.
 Proof. vm_compute. auto. Qed.
